@@ -4,6 +4,10 @@
     io::Result of the call, and the getters of every bar).  The checker recomputes the hashes
     with the model. *)
 From IndModel Require Export Sys.
+From Coq Require Import String Ascii.
+
+(* texts are written as ASCII string literals in the case files *)
+Definition t (s : string) : text := List.map N_of_ascii (list_ascii_of_string s).
 
 Definition FNV_OFFSET : N := 14695981039346656037.
 Definition FNV_PRIME : N := 1099511628211.
